@@ -400,7 +400,7 @@ def run(ctx, res):
     if c02.unlisted_failure(ctx, res):
         full = False
     else:
-        full = ctx.tier == 'thorough' or ctx.deep
+        full = ctx.tier == 'thorough' or c02.is_deep(ctx)
     cases = grid(full)
     if c02.unlisted_failure(ctx, res):
         cases = cases[::7]
